@@ -26,6 +26,11 @@ pub fn run() {
             }
             _ => println!("bin {} ?", name),
         }
+        // precedence and associativity as full_moon (the parser the properties name) has them
+        match binop_of(&src, syntax) {
+            Some((p, r)) => println!("prec bin {} {} {}", name, p, r as u8),
+            None => println!("prec bin {} ? ?", name),
+        }
     }
     for (name, sym) in UNOPS {
         let syntax = if name == "t" { LuaVersion::Lua53 } else { LuaVersion::Lua51 };
@@ -43,5 +48,32 @@ pub fn run() {
             }
             _ => println!("un {} ?", name),
         }
+        match unop_prec(&src, syntax) {
+            Some(p) => println!("prec un {} {} 0", name, p),
+            None => println!("prec un {} ? ?", name),
+        }
+    }
+}
+
+fn first_expression(src: &str, syntax: LuaVersion) -> Option<full_moon::ast::Expression> {
+    let ast = parse(src, syntax)?;
+    let first = ast.nodes().stmts().next().cloned();
+    match first? {
+        full_moon::ast::Stmt::LocalAssignment(l) => l.expressions().iter().next().cloned(),
+        _ => None,
+    }
+}
+
+fn binop_of(src: &str, syntax: LuaVersion) -> Option<(u8, bool)> {
+    match first_expression(src, syntax)? {
+        full_moon::ast::Expression::BinaryOperator { binop, .. } => Some((binop.precedence(), binop.is_right_associative())),
+        _ => None,
+    }
+}
+
+fn unop_prec(src: &str, syntax: LuaVersion) -> Option<u8> {
+    match first_expression(src, syntax)? {
+        full_moon::ast::Expression::UnaryOperator { .. } => Some(full_moon::ast::UnOp::precedence()),
+        _ => None,
     }
 }
